@@ -1111,6 +1111,10 @@ func (g *gen) genNamed(name string, depth int) *J {
 	}
 	o := jObj()
 	if td.OneOf {
+		if depth <= 0 {
+			g.note("depth-cut")
+			return o
+		}
 		f := td.Fields[r.Pick(len(td.Fields))]
 		v := g.genValue(f.T, depth-1, false, false)
 		if v == nil || v.K == 0 {
@@ -1183,9 +1187,15 @@ func (g *gen) genVars() []VarDef {
 	nv := 1 + r.Pick(3)
 	var vars []VarDef
 	nIn := g.countKind("input")
+	names := []string{"x", "y", "z"}
+	if r.Chance(1, 5) {
+		// names that collide with what the variables mapper generates
+		names = []string{"a", "b", "c"}
+		r.Shuffle(3, func(i, j int) { names[i], names[j] = names[j], names[i] })
+	}
 	for i := 0; i < nv; i++ {
 		t := g.genType(nIn, -1, false, 3)
-		v := VarDef{Name: string(rune('x' + i)), T: t}
+		v := VarDef{Name: names[i], T: t}
 		if r.Chance(1, 3) {
 			if t.K == 1 && r.Chance(1, 4) {
 				v.Def = jNull()
